@@ -184,6 +184,8 @@ def run(ctx):
                 frm = " ".join(t.get("argtys", []))
                 if "i32" not in frm:
                     continue
+                if t.get("args") and mir.const_int(t["args"][0]) is not None:
+                    continue            # (a constant — a bound to compare a real with — is no value of the program becoming inexact)
                 ctx.inst("C09-no-silent-inexact", "cast<-" + f.name)
                 if f.name == up.name:
                     # must be in an arm with a Real operand: dominated by a switch target selected by variant Real
